@@ -15,6 +15,7 @@ case format with C01 (props/c01.py).
 import collections
 import json
 import pickle
+import re
 import time
 
 from core.engine import Property, F
@@ -45,8 +46,24 @@ def rows_at(res, key):
     return []
 
 
+REJECT = re.compile(r"SequentialCB\([^)]*\) requires ")
+
+
 def t4_markers(log):
-    return [m for m in markers(log) if not m.endswith(":params") and not m.endswith(":finish")]
+    """the exceptions of evaluation tasks a log reports: toy markers (keyed by triple) and — phase 4 — the CobaException with
+    which the built-in SequentialCB rejects an environment (the set in its message prints in hash order: only counted)"""
+    return ([m for m in markers(log) if not m.endswith(":params") and not m.endswith(":finish")]
+            + ["REJECTED-BY-SequentialCB"] * sum(bool(REJECT.search(l)) for l in log))
+
+
+EVAL_EXC = re.compile(r"Evaluating Learner (\d+) on Environment (\d+)\.\.\. \([^)]*\) \(exception\)")
+
+
+def failed_pairs(log):
+    """phase 4, the log at key level: the (environment_id, learner_id) pairs whose evaluation the log reports as failed
+    (`Evaluating Learner l on Environment e... (t seconds) (exception)`, written by ProcessTasks around every evaluation;
+    absent with quiet=True)"""
+    return collections.Counter((int(m.group(2)), int(m.group(1))) for m in (EVAL_EXC.search(l) for l in log) if m)
 
 
 def alone_case(case, triple):
@@ -77,7 +94,8 @@ class C03(Property):
     rule = ("an experiment recipe as for C01 (toy or built-in components, shared objects in random patterns, duplicated triples, raising variants at "
             "params / predict / learn / read / evaluate) run under 1-3 configurations (mostly in-process, where objects are really shared; simulator; "
             "few real workers) and optionally with the triple list permuted; every listed triple is additionally run alone; non-trivial = at least two "
-            "triples listed and at least one interaction row recorded")
+            "triples listed and at least one interaction row recorded; runs draw quiet=True (35 %) and the logger kind (25 % IndentLogger); 8 % of the cases are of the "
+            "seq kind (built-in SequentialCB, rows predicted by the model); the log is checked by exception marker and, for non-quiet runs, by (environment_id, learner_id)")
     trusted_base = c01.C01.trusted_base
     assumptions = c01.C01.assumptions
     partial_theorems = {}
@@ -85,7 +103,10 @@ class C03(Property):
     def generate(self, rng, tier):
         real_p = 0.02 if tier == "quick" else 0.008
         if rng.chance(0.68):
-            case = gen_toy(rng, tier, real_p, fail_bias=1.6, share_bias=1.6)
+            if rng.chance(0.12):
+                case = c01.gen_seq(rng, tier, real_p)        # phase 4: built-in SequentialCB, rows predicted by the model
+            else:
+                case = gen_toy(rng, tier, real_p, fail_bias=1.6, share_bias=1.6)
         else:
             case = gen_builtin(rng, tier, real_p)
         case.pop("rerun", None)
@@ -97,7 +118,7 @@ class C03(Property):
             case["runs"][0] = {"cfg": [1, 0, rng.choice([1, 2, 3])], "how": "inproc", "sched": 0}
         if rng.chance(0.3):
             case["perm"] = rng.randint(1, 10 ** 6)
-        return case
+        return c01.add_run_opts(rng, case, 0.35, 0.25)
 
     def search(self, rng, tier):
         case = gen_toy(rng, tier, 0.0, fail_bias=2.5, share_bias=2.5)
@@ -107,7 +128,7 @@ class C03(Property):
         case["runs"] = case["runs"][:2]
         if rng.chance(0.5):
             case["perm"] = rng.randint(1, 10 ** 6)
-        return case
+        return c01.add_run_opts(rng, case, 0.5, 0.25)
 
     def corpus(self):
         cs = []
@@ -123,6 +144,27 @@ class C03(Property):
                    "vals": [{"tag": 0, "seed": None, "learn": True}, {"tag": 1, "seed": None, "learn": True, "fail_at": 1}, {"tag": 2, "seed": 2, "learn": False, "params_fail": True}],
                    "mode": "product", "pe": [0, 1, 2], "pl": [0, 1, 2, 3], "pv": [0, 1, 2],
                    "runs": [{"cfg": [1, 0, 0], "how": "inproc", "sched": 0}, {"cfg": [3, 1, 1], "how": "sim", "sched": 8}, {"cfg": [2, 0, 0], "how": "real", "sched": 0}]})
+        # round g: the failure of a triple is reported in the log under EVERY execution parameter of run(): quiet=True
+        # (only the progress messages are switched off) and whichever logger the caller installed; in-process, simulated
+        # and really spawned workers.  Every failure position (env read / params, learner predict / learn / params,
+        # evaluator / params) is present.
+        allfail = cs[-1]
+        cs.append(dict(allfail, seed=4, runs=[
+            {"cfg": [1, 0, 0], "how": "inproc", "sched": 0, "quiet": True},
+            {"cfg": [1, 0, 2], "how": "inproc", "sched": 0, "quiet": True, "logger": "indent"},
+            {"cfg": [2, 1, 1], "how": "sim", "sched": 11, "quiet": True},
+            {"cfg": [2, 0, 0], "how": "real", "sched": 0, "quiet": True},
+            {"cfg": [1, 0, 0], "how": "inproc", "sched": 0, "logger": "indent"}]))
+        cs.append({"kind": "toy", "seed": 2, "envs": [{"tag": 0, "xs": [1, 2, 3, 4], "raw": True}],
+                   "lrns": [{"tag": 0, "mult": 1, "fp": 0}, {"tag": 1, "mult": 2}], "vals": [{"tag": 0, "seed": None, "learn": True}],
+                   "mode": "product", "pe": [0], "pl": [0, 1], "pv": [0],
+                   "runs": [{"cfg": [1, 0, 0], "how": "inproc", "sched": 0, "quiet": True}, {"cfg": [3, 0, 0], "how": "sim", "sched": 2, "quiet": True, "logger": "indent"}]})
+        cs.append({"kind": "builtin", "seed": 1, "envs": [{"src": "linear", "n": 12, "na": 3, "seed": 2, "prefix": [], "branches": [[]]}],
+                   "lrns": [{"type": "info", "tag": 0, "where": ["predict"], "fail_learn_at": 1}, {"type": "random", "seed": 2}],
+                   "vals": [{"type": "seq", "record": ["reward", "action", "probability"], "seed": None}],
+                   "mode": "product", "pe": [0], "pl": [0, 1], "pv": [0],
+                   "runs": [{"cfg": [1, 0, 0], "how": "inproc", "sched": 0, "quiet": True}, {"cfg": [2, 0, 0], "how": "sim", "sched": 3, "quiet": True}]})
+        cs += c01.seq_directed_cases()
         # shared chunk()/cache() prefix, all triples of the group in one address space
         cs.append({"kind": "toy", "seed": 2, "envs": [{"tag": 0, "xs": [3, 1, 4, 1, 5], "prefix": [["chunk"]], "branches": [[["shuffle", 3]]]}],
                    "lrns": [{"tag": 0, "mult": 1}, {"tag": 1, "mult": 3}], "vals": [{"tag": 0, "seed": None, "learn": True}],
@@ -164,6 +206,7 @@ class C03(Property):
         bad_envs = cached_failing_envs(case) if cache_bug_present() else set()
         known_defect = False
         alone_cache = {}
+        alone_failed = {}
         nrows = 0
         ntriples = 0
         model = None
@@ -183,7 +226,7 @@ class C03(Property):
                     timed_out = True
                     break
                 try:
-                    o = run_iso(vcase, run["cfg"], run["how"], run["sched"], run.get("pre"))
+                    o = run_iso(vcase, run["cfg"], run["how"], run["sched"], run.get("pre"), None, c01.run_opts(run))
                 except RunTimeout as e:
                     fails.append(F("T", "%s triple list, cfg %s (%s): %s" % (vname, run["cfg"], run["how"], e), "timeout"))
                     tags.append("timeout")
@@ -192,13 +235,16 @@ class C03(Property):
                 if run.get("pre"):
                     tags.append("session:pre-run-" + run["pre"]["how"])
                 multi = run["cfg"][0] > 1 or run["cfg"][1] != 0
+                want_markers_hint = bool(t4_markers(o["log"]))
                 tags.append("how:" + run["how"])
+                tags += ["run:" + k + ("+failing-triple" if want_markers_hint else "") for k in ("quiet", "logger") if run.get(k)]
                 tags.append("cfg:%s%s" % ("multi" if multi else "inproc", ",mt>0" if run["cfg"][2] else ""))
                 triples = [tuple(t) for t in o["triples"]]
                 ids = ids_of(triples)
                 ntriples = max(ntriples, len(set(triples)))
                 count_l = collections.Counter(l for _, l, _ in triples)
                 want_markers = collections.Counter()
+                want_pairs = collections.Counter()
                 want_copy_errors = 0
                 seen = set()
                 for t, key in zip(triples, ids):
@@ -215,8 +261,11 @@ class C03(Property):
                             timed_out = True
                             break
                         alone_cache[t] = (rows_at(a["result"], (0, 0, 0)), t4_markers(a["log"]))
+                        alone_failed[t] = bool(failed_pairs(a["log"]))
                     arows, amarks = alone_cache[t]
                     want_markers.update(amarks)
+                    if alone_failed.get(t):
+                        want_pairs[(key[0], key[1])] += 1
                     if t in seen:
                         continue
                     seen.add(t)
@@ -241,6 +290,21 @@ class C03(Property):
                 if missing and not unknown_cache:
                     fails.append(F("B", "%s triple list, cfg %s (%s): exceptions %s of failing triples are not reported in the log" % (
                         vname, run["cfg"], run["how"], dict(missing)), "isolation:exception-not-logged"))
+                # … for exactly the failing triples (key level): the evaluations the log reports as failed are, with multiplicity,
+                # the (environment_id, learner_id) of the listed triples whose alone run fails — no other evaluation is reported
+                # as failed, none of the failing ones is missing
+                if not run.get("quiet") and not timed_out and not unknown_cache:
+                    # an error raised by a learner's finish() hook is written inside the same timing block although the rows were
+                    # recorded (it is not a failure of the evaluation): learners with such a hook are left out on both sides
+                    hook_ids = {key[1] for t, key in zip(triples, ids) if vcase["lrns"][t[1] % len(vcase["lrns"])].get("finish") in ("raise", "lazy")}
+                    got_pairs = collections.Counter({k: v for k, v in failed_pairs(o["log"]).items() if k[1] not in hook_ids})
+                    want_pairs = collections.Counter({k: v for k, v in want_pairs.items() if k[1] not in hook_ids})
+                    if got_pairs != want_pairs:
+                        fails.append(F("B", "%s triple list, cfg %s (%s): the log reports failed evaluations for (environment_id, learner_id) %s, the triples that "
+                                            "fail when evaluated alone are %s" % (vname, run["cfg"], run["how"], sorted(got_pairs.elements()), sorted(want_pairs.elements())),
+                                       "isolation:failure-logged-for-wrong-triple"))
+                    if want_pairs:
+                        tags.append("log-checked-by-key")
                 n_copy_errors = sum("cannot pickle" in l for l in o["log"])
                 if n_copy_errors < want_copy_errors:
                     fails.append(F("B", "%s triple list, cfg %s (%s): %d triples list a learner that cannot be copied, only %d copy errors are reported in the log" % (
@@ -264,6 +328,11 @@ class C03(Property):
                         fs, ans = compare_with_model(driver, vcase, observe(vcase), run, o, vname + " triple list, ")
                         fails += fs
                         model = ans["model"]
+                if driver is not None and kind == "seq":
+                    fs, ans = c01.compare_seq(driver, vcase, c01.observe_seq(vcase), run, o, vname + " triple list, ")
+                    fails += fs
+                    model = {"ints": len(ans["model"]["ints"])}
+                    tags.append("seq:model-predicted")
                 if leaky:
                     fails[:] = [f for f in fails if f["kind"] != "B"]
         if cache_bug_present() and cached_failing_envs(case):
